@@ -106,12 +106,15 @@ def run(ctx):
 
     # ---------------- R2 stable sort
     ctx.rule("C14.R2", "sort and sort_by use the stable slice::sort_by; no sort_unstable* anywhere in the built-ins", floor=3)
+    BA = M.BuiltinArms(core, cg)
     for v in ("Sort", "SortBy"):
-        calls = [bic.callee(b) for b in regions.get(v, ()) if bic.term(b)["k"] == "call" and "sort" in (bic.callee(b) or "")]
-        ctx.inst("C14.R2", v, calls == ["alloc::slice::<impl [T]>::sort_by"], "sorting calls in the arm: %s" % calls, bic.loc())
+        fr = BA.region(v)
+        calls = [fr[0].callee(b) for b in fr[1] if fr[0].term(b)["k"] == "call" and "sort" in (fr[0].callee(b) or "")] if fr else []
+        ok2 = True if calls == ["alloc::slice::<impl [T]>::sort_by"] else (None if not calls else False)
+        ctx.inst("C14.R2", v, ok2, "sorting calls in the arm: %s%s" % (calls, " (no sorting call in the arm itself: moved into a helper? not decided)" if not calls else ""), bic.loc())
     uns = []
     for n, f in cg.fns.items():
-        if n.startswith(BCALL):
+        if n.startswith(BCALL) or any(n.startswith(m_) for m_ in BA.members):
             fn_ = M.Fn(f, n)
             uns += [(n, fn_.callee(b)) for b in fn_.call_blocks() if "sort_unstable" in (fn_.callee(b) or "")]
     ctx.inst("C14.R2", "no-unstable-sort", not uns, "sort_unstable* calls in the built-ins: %s" % uns, None)
@@ -212,10 +215,11 @@ def run(ctx):
     # ---------------- R4 key primitives
     ctx.rule("C14.R4", "each list/string/record built-in is built on its frozen key primitive(s) (str::split, slice::join, slice::reverse, slice::chunks, stable sort_by over Value::compare, Value::equals for unique/includes, IndexMap keys/values/iter/entry, chars for strings) and on no look-alike (split_terminator, sort_unstable, dedup, ...)", floor=20)
     for v, req in sorted(KEY.items()):
-        if v not in regions:
+        fr = BA.region(v)
+        if fr is None:
             ctx.inst("C14.R4", v, False, "no arm for %s" % v, None)
             continue
-        cs = region_callees(bic, regions[v], cg)
+        cs = region_callees(fr[0], fr[1], cg)
         missing = [r for r in req if not any((c == r or c.endswith(r) or (r.startswith("closure:") and c.startswith("closure:") and c.endswith(r[8:])) or (not r.startswith("closure:") and r in c)) for c in cs)]
         bad = sorted(c for c in cs if FORBIDDEN.search(c))
         # a look-alike in the arm is a definite finding; a key primitive that is not called from the arm itself may have moved into a helper
